@@ -8,6 +8,13 @@
 #[verifier::external_body]
 pub struct VEnvRest { _p: u8 }
 
+impl VEnvRest {
+    // `Environment.val_cache.clear()` (do_validate resets the import value cache per validated file, fix a5bfd6a): the
+    // value cache is part of `rest`, about which the C13 contracts say nothing (havoc).
+    #[verifier::external_body]
+    pub fn clear_val_cache(&mut self) { unimplemented!() }
+}
+
 pub struct VEnv {
     pub assert_results: AssertCollector,
     pub rest: VEnvRest,
